@@ -258,3 +258,60 @@ def prove(ck, summ, H=None):
         json.dump({'comment': 'C16 theorems proved on the baseline tree; written by C16_FREEZE=1 ./check C16, never at check time', 'proved': sorted(proved)},
                   open(fz_path, 'w'), indent=1)
     ck.cov['theorems'] = dict(cov, proved=len(proved), frozen=len(frozen))
+
+
+# ------------------------------------------------------------------------------------------- a concrete pair
+def slope_instance(ck, H, summ, pairs):
+    """C16_slope_<y> applied to a REAL pair of solved returns (base, d more dollars withheld on a W-2): the hypotheses are met by reachable states"""
+    from . import catalog
+    enums = gen_forms.Enums(H['enum'])
+    files = []
+    for y, idx, (s0, s1, delta) in [(y_, i_, p_) for y_ in sorted(pairs) for i_, p_ in enumerate(pairs[y_])]:
+        if y not in summ:
+            continue
+
+        def store(s):
+            return gen_forms.clist(['(%s, %s)' % (gen_forms.cstr(k), catalog.pv_of(v, enums)) for k, v in s._v.values.items()])
+
+        def inputs(s):
+            out = []
+            cfgp = s._i.config if hasattr(s, '_i') else None
+            if cfgp is None:
+                return '[]'
+            for sec in cfgp.sections():
+                for opt in cfgp.options(sec):
+                    spec = s._input_map.get('%s.%s' % (sec, opt))
+                    raw = cfgp.get(sec, opt)
+                    if spec is not None and spec.valid(raw):
+                        out.append('(%s, %s)' % (gen_forms.cstr('%s.%s' % (sec, opt)), catalog.pv_of(spec.value(raw), enums)))
+            return gen_forms.clist(out)
+        forms_txt = gen_forms.clist([gen_forms.cstr(x) for x in s0.forms.keys()])
+        t = [HEAD % {'y': y}, 'From HV Require Import TaxModel.', 'From Gen Require Import Tax%d C16_slope_%d.' % (y, y), 'Open Scope Q_scope.', 'Open Scope string_scope.',
+             'Definition normv (v:pv) : pv := match v with PNum q => PNum (Qred q) | _ => v end.',
+             'Definition valsA := Eval vm_compute in map (fun kv => (fst kv, normv (snd kv))) %s.' % store(s0),
+             'Definition valsB := Eval vm_compute in map (fun kv => (fst kv, normv (snd kv))) %s.' % store(s1),
+             'Definition inpsA := Eval vm_compute in map (fun kv => (fst kv, normv (snd kv))) %s.' % inputs(s0),
+             'Definition inpsB := Eval vm_compute in map (fun kv => (fst kv, normv (snd kv))) %s.' % inputs(s1),
+             'Definition cA : ctx := Ctx cat "1040" None valsA inpsA %s (tax_fn %d cfg).' % (forms_txt, y),
+             'Definition cB : ctx := Ctx cat "1040" None valsB inpsB %s (tax_fn %d cfg).' % (forms_txt, y),
+             'Definition look (l:list (string * pv)) (n:string) : Q := match slookup ("1040." ++ n) l with Some (PNum q) => q | _ => 0 end.',
+             'Ltac reads_tac := split; intros n Hn; cbn in Hn;',
+             '  repeat (destruct Hn as [<-|Hn]; [eexists; split; [vm_compute; reflexivity|vm_compute; reflexivity]|]); try contradiction.',
+             'Example C16_slope_on_a_real_pair :',
+             '  (look valsB "34" - look valsB "37") - (look valsA "34" - look valsA "37") == %s.' % gen_forms.cq(repr(float(delta))),
+             'Proof.',
+             '  apply (C16_slope_%d cA cB (look valsA) (look valsB) (look inpsA) (look inpsB) 5000%%nat); try lia; try (vm_compute; reflexivity).' % y,
+             '  all: unfold top_ok, s25d, s33, s34, s37; reads_tac.',
+             'Qed.']
+        files.append((y, ck.write_gen('C16_slope_instance_%d_%d.v' % (y, idx), '\n'.join(t) + '\n')))
+    res = ck.coqc_many([f for _, f in files], timeout=900)
+    shown = {}
+    for y, f in files:
+        ok, out = res[f]
+        shown[y] = shown.get(y, False) or ok
+        if not ok:
+            ck.notes.append('slope instance %d did not go through: %s' % (y, out[-160:].replace('\n', ' ')))
+    for y, ok in sorted(shown.items()):       # a demonstration, not the property: one of up to three candidate pairs has to go through
+        if ok:
+            ck.oblige('C16_slope_%d holds its hypotheses on a real pair of returns' % y, True)
+    ck.cov['theorem_instances_on_real_pairs'] = {str(y): v for y, v in shown.items()}
